@@ -94,7 +94,13 @@ class World:
         try:
             if a["n"] == "start":
                 self.started.add(a["c"])
-                c.start()
+                if a.get("paused_start"):
+                    # a legitimate way to start a computation: paused first, resumed once started
+                    c.pause(True)
+                    c.start()
+                    c.pause(False)
+                else:
+                    c.start()
             elif a["n"] == "deliver":
                 msg = self.chan[(a["src"], a["c"])].pop(0)
                 c.on_message(a["src"], msg, 0)
@@ -211,8 +217,9 @@ def real_algo_histories(r, n, hid0):
             nbr = {c: list(comp.neighbors) for c, comp in w.comps.items()}
             exc = [e["exc"] for e in w.events if e["exc"]]
             calls_k = [x for x in calls if x["cycle"] < rounds]
+            stalled = steps < 4000       # the loop ended because nothing deliverable was left (the judge looks at who is behind)
             out.append(({"id": hid0 + len(out), "nbr": nbr, "calls": calls_k, "sent": [s for s in sent if s["cyc"] < rounds], "exc": exc,
-                         "quiet": False, "rounds": rounds}, {"algo": algo, "inst": inst, "policy": pol}))
+                         "quiet": stalled, "rounds": rounds}, {"algo": algo, "inst": inst, "policy": pol}))
     return out, gres
 
 
@@ -270,12 +277,15 @@ def run(tier):
             a = r.choice(en)
             nb = GRAPHS[gname][a["c"]]
             a["choice"] = [n for n in nb if r.random() < 0.6] if w.comps[a["c"]]._current_cycle < rounds else []
+            if a["n"] == "start" and r.random() < 0.3:
+                a["paused_start"] = True
             ops.append(a)
             w.apply(a)
             if all(p._current_cycle >= rounds for c, p in w.comps.items() if GRAPHS[gname][c]):
                 break
         h = w.history(len(hist), rounds)
-        h["quiet"] = False
+        # stalled: nothing left to deliver although some computation has not completed its rounds
+        h["quiet"] = not w.enabled()
         hist.append((h, {"graph": gname, "path": ops}))
     real, gres = real_algo_histories(r, 2 if quick else 8, len(hist))
     v.add_tlc(gres, "instance generation (Gen_Dcop) for the Max-Sum / DSA-tuto executions")
